@@ -5,6 +5,8 @@ import os
 import numpy as np
 
 from .. import engine, optics as op, refmodel as rm
+from .. import histories
+from ..histories import t_callhist        # worker task of the history harness (mc/histories.py)
 
 PID = 'C09'
 MOD = 'mc.props.c09'
@@ -284,6 +286,8 @@ def chk_hist(case, acc, seed):
 DISPATCH = {'fft': chk, 'refuse': chk_refuse, 'hist': chk_hist}
 
 
+DISPATCH['histop'] = histories.chk_case
+
 def t_cfg(arg, acc):
     tier, seed, pupil = arg['tier'], arg['seed'], tuple(arg['pupil'])
     for N in grids(pupil, tier):
@@ -318,6 +322,7 @@ def run(tier, seed, acc, procs=None):
         tasks.append(('t_hist', {'len': L, 'seed': seed}))
     acc.states += 1
     acc.transitions += len(tasks)
+    tasks += histories.tasks_for(PID, seed)        # pairwise call histories over the operations this property is anchored in
     engine.run_parallel(MOD, tasks, acc, procs)
     return {
         'rule': 'cross product pupil shape x FFT grid N in {n..n+5} (both parities, via the wavelength, incl. wavelengths that '
@@ -335,5 +340,8 @@ def run(tier, seed, acc, procs=None):
 
 
 def replay(case, acc):
+    if case.get('kind') == 'histop':
+        import os as _os
+        return histories.chk_case(case, acc, int(_os.environ.get('VERIF_SEED', '0') or 0))
     seed = int(os.environ.get('VERIF_SEED', '0') or 0)
     DISPATCH[case['kind']](case, acc, seed)
